@@ -51,8 +51,29 @@ impl SeqSeekIndexEntryV1 { #[verifier::external_body] pub fn new(seq: u64, offse
 #[verifier::external_body] pub fn str_bytes(s: &String) -> &[u8] { unimplemented!() }
 #[verifier::external_body] pub fn nl_bytes() -> &'static [u8] { unimplemented!() }
 
-pub struct ContinuityStreamCache { pub filler: u8 }
+pub struct CompactionCheckpointIndexEntryV1 { pub filler: u8 }
+impl CompactionCheckpointIndexEntryV1 { #[verifier::external_body] pub fn from_event(e: &Event) -> Option<CompactionCheckpointIndexEntryV1> { unimplemented!() } }
+#[verifier::external_body] pub fn append_compaction_checkpoint_index_entry_best_effort_v1(p: &PathBuf, e: &CompactionCheckpointIndexEntryV1) { unimplemented!() }
+#[verifier::external_body] pub fn seq_index_path(dir: &PathBuf, id: &str) -> PathBuf { unimplemented!() }
+#[verifier::external_body] pub fn message_index_path(dir: &PathBuf, id: &str) -> PathBuf { unimplemented!() }
+//@@ item crates/ripd/src/continuity_seek_index.rs const SEEK_INDEX_STRIDE_EVENTS_V1
+pub mod rip_kernel { pub use super::EventKind; }
+// which derived appender a frame of a thread was handed to (by the full-sidecar appender)
+pub tracked struct Attempt3 { pub ghost opened: bool, pub ghost flushed: bool, pub ghost mr: bool, pub ghost cp: bool }
+#[verifier::external_body]
+pub fn open_append3(Tracked(att): Tracked<&mut Attempt3>, p: &PathBuf) -> (r: Result<File, IoError>)
+    ensures final(att).opened, final(att).mr == old(att).mr, final(att).cp == old(att).cp, final(att).flushed == old(att).flushed,
+{ unimplemented!() }
+// `writer.flush()` of the full sidecar's writer: Ok means the frame's line is in the full sidecar
+#[verifier::external_body]
+pub fn flush3(Tracked(att): Tracked<&mut Attempt3>, w: &mut BufWriter) -> (r: Result<(), IoError>)
+    ensures final(att).flushed == (r is Ok), final(att).opened == old(att).opened, final(att).mr == old(att).mr, final(att).cp == old(att).cp,
+{ unimplemented!() }
+pub struct ContinuityStreamCache { pub dir: PathBuf }
 impl ContinuityStreamCache {
+    #[verifier::external_body] pub fn path_for(&self, id: &str) -> PathBuf { unimplemented!() }
+    #[verifier::external_body] pub fn compaction_checkpoints_path_for_v1(&self, id: &str) -> PathBuf { unimplemented!() }
+    #[verifier::external_body] pub fn compaction_checkpoints_index_path_for_v1(&self, id: &str) -> PathBuf { unimplemented!() }
     #[verifier::external_body] pub fn messages_runs_path_for_v1(&self, id: &str) -> PathBuf { unimplemented!() }
     #[verifier::external_body] pub fn messages_runs_seq_index_path_v1(&self, id: &str) -> PathBuf { unimplemented!() }
     #[verifier::external_body] pub fn messages_runs_message_index_path_v1(&self, id: &str) -> PathBuf { unimplemented!() }
@@ -66,6 +87,34 @@ impl ContinuityStreamCache {
     //@@ rewrite b"\n" ==>> nl_bytes()
     //@@ sig
         ensures belongs_in_the_messages_runs_sidecar(*event) ==> final(att).opened,      // [mr_append.every_message_and_run_ended_frame_of_a_thread_reaches_the_sidecar_whatever_its_payload]
+    //@@ end
+
+    //@@ fn crates/ripd/src/continuity_stream_cache.rs ContinuityStreamCache::append_compaction_checkpoints_best_effort_v1
+    //@@ alias serde_json::to_string event_to_string
+    //@@ rewrite &Event ==>> &Event, Tracked(att): Tracked<&mut Attempt>
+    //@@ rewrite OpenOptions::new().create(true).append(true).open(&path) ==>> open_append(Tracked(&mut *att), &path)
+    //@@ rewrite line.as_bytes() ==>> str_bytes(&line)
+    //@@ rewrite b"\n" ==>> nl_bytes()
+    //@@ sig
+        ensures (kind_of(*event) == StreamKind::Continuity && event.kind is ContinuityCompactionCheckpointCreated) ==> final(att).opened,      // [cp_append.every_checkpoint_frame_of_a_thread_reaches_the_checkpoint_sidecar_whatever_its_payload]
+    //@@ end
+
+    // the full-sidecar appender: every frame of a thread stream reaches the full sidecar's open, and - when the line was written - is
+    // handed to both derived appenders (which filter by kind themselves, see above)
+    //@@ fn crates/ripd/src/continuity_stream_cache.rs ContinuityStreamCache::append_best_effort
+    //@@ alias serde_json::to_string event_to_string
+    //@@ rewrite &Event ==>> &Event, Tracked(att): Tracked<&mut Attempt3>
+    //@@ rewrite OpenOptions::new().create(true).append(true).open(&path) ==>> open_append3(Tracked(&mut *att), &path)
+    //@@ rewrite line.as_bytes() ==>> str_bytes(&line)
+    //@@ rewrite b"\n" ==>> nl_bytes()
+    //@@ rewrite writer.flush() ==>> flush3(Tracked(&mut *att), &mut writer)
+    //@@ rewrite self.append_messages_runs_best_effort_v1(event); ==>> proof { att.mr = true; } let tracked mut a1 = Attempt { opened: false }; self.append_messages_runs_best_effort_v1(event, Tracked(&mut a1));
+    //@@ rewrite self.append_compaction_checkpoints_best_effort_v1(event); ==>> proof { att.cp = true; } let tracked mut a2 = Attempt { opened: false }; self.append_compaction_checkpoints_best_effort_v1(event, Tracked(&mut a2));
+    //@@ sig
+        requires !old(att).opened && !old(att).mr && !old(att).cp && !old(att).flushed,
+        ensures
+            kind_of(*event) == StreamKind::Continuity ==> final(att).opened,      // [full_append.every_frame_of_a_thread_reaches_the_full_sidecar_whatever_its_payload]
+            final(att).flushed ==> (final(att).mr && final(att).cp),               // [full_append.a_frame_written_to_the_full_sidecar_is_handed_to_both_derived_appenders]
     //@@ end
 }
 
